@@ -29,14 +29,13 @@ Theorem C10_grow_old_upvalue_refuted :
 Proof. exact grow_old_upvalue_visible. Qed.
 Print Assumptions C10_grow_old_upvalue_refuted.
 
-(* UNBOUNDED size/growth independence: two runs of the same program - operation sequences of
-   the fixed machine that are equal once the growth steps are erased - from ANY two base
+(* UNBOUNDED size/growth independence: two runs of the same program - operation sequences
+   that are equal once the growth steps are erased - from ANY two base
    addresses and ANY two initial capacities, with growth steps at different places and to
    different new bases, produce the same reads, provided both satisfy the discipline D and never
    push beyond their current capacity (i.e. the runtime grew the stack in time).  Via
    C13_refines: both equal the reads of the store-semantics spec, which ignores growth. *)
 Theorem C10_run_indep : forall b1 c1 b2 c2 l1 l2, 0 <= c1 -> 0 <= c2 ->
-  forallb fixed_op l1 = true -> forallb fixed_op l2 = true ->
   filter no_grow l1 = filter no_grow l2 ->
   D init_sst l1 = true -> D init_sst l2 = true ->
   fits_run (init_st b1 c1) l1 = true -> fits_run (init_st b2 c2) l2 = true ->
